@@ -74,7 +74,7 @@ static const char* k_kind[] = { "random", "sin", "empty" };
 static const char* k_type[] = { "u8", "u16", "i8", "i16", "f32", "u10", "u12", "u14" };
 
 static struct { unsigned long cases, sets, rejected_sets, starts, frames, bytes, binned_cases, clamped, maxshape, reconfigs,
-                runs, triggers, trigger_runs, pending_at_stop, restarts_checked, timebound_checked; } C;
+                runs, triggers, trigger_runs, pending_at_stop, restarts_checked, timebound_checked, failed_frame_calls; } C;
 static vset g_sigs;
 
 // ---- C17 ------------------------------------------------------------------------------------------------
@@ -219,6 +219,8 @@ struct run_ctx {
     _Atomic long delivered;
     _Atomic int consumer_done, stop_consumer, in_get_frame;
     long want;                        // frames the consumer tries to get
+    int fail_last;                    // finish with a frame call whose buffer is too small (must fail and stop the camera)
+    int fail_last_rc;
     int64_t last_id, first_id;
     double t_start; float exposure_ms;
     uint64_t seed;
@@ -261,6 +263,10 @@ static void* consumer_main(void* a)
             ++C.timebound_checked;
         }
         if (vrng_chance(&g, 1, 6)) { struct timespec ts = { 0, (long)vrng_range(&g, 1000, 400000) }; nanosleep(&ts, 0); }
+    }
+    if (r->fail_last && !atomic_load(&r->stop_consumer) && atomic_load(&r->delivered) >= r->want) {
+        size_t nb = r->nbytes - 1; struct ImageInfo info; memset(&info, 0xff, sizeof info);
+        r->fail_last_rc = 1 + (int)camera_get_frame(r->cam, im, &nb, &info);
     }
     free(im);
     atomic_store(&r->consumer_done, 1);
@@ -333,6 +339,7 @@ static void run_stream_case(uint64_t seed, unsigned long icase)
         long ntrig = trig ? (long)vrng_range(&g, 0, 12) : 0;
         r.want = trig ? (pending_at_stop ? ntrig + 1 : (ntrig ? (long)vrng_range(&g, 1, ntrig) : 0)) : (long)vrng_range(&g, 1, exp_us >= 2000 ? 25 : 120);
         if (trig && ntrig == 0 && !pending_at_stop) { pending_at_stop = 1; r.want = 1; }
+        r.fail_last = !pending_at_stop && r.nbytes > 1 && r.want > 0 && vrng_chance(&g, 1, 5);
         r.t_start = now_s();
         ++C.starts;
         if (camera_start(cam) != Device_Ok) { violation("start-failed", "camera_start failed"); break; }
@@ -364,6 +371,12 @@ static void run_stream_case(uint64_t seed, unsigned long icase)
                 // with triggering, coalesced triggers can legitimately leave the consumer waiting: stop releases it
                 if (!trig) violation("consumer-stalled", "free-running camera delivered %ld of %ld frames in 60 s", (long)atomic_load(&r.delivered), r.want);
             }
+        }
+        if (r.fail_last && finished && r.fail_last_rc) {
+            ++C.failed_frame_calls;
+            vbuf_printf(&g_log, "(frame call with a short buffer -> %s) ", r.fail_last_rc == 1 ? "Ok" : "Err");
+            if (r.fail_last_rc == 1) violation("short-buffer-accepted", "camera_get_frame accepted a buffer smaller than the image");
+            else if (camera_get_state(cam) == DeviceState_Running) violation("running-after-failed-frame-call", "HAL still reports Running after a failed frame call");
         }
         // ---- stop must return and release a pending frame call ------------------------------------
         vbuf_printf(&g_log, "stop ");
@@ -416,9 +429,9 @@ int main(int argc, char** argv)
     }
     printf("S {\"mode\":\"%s\",\"cases\":%lu,\"violations\":%lu,\"sets\":%lu,\"rejected_sets\":%lu,\"reconfigurations\":%lu,\"starts\":%lu,"
            "\"frames\":%lu,\"frame_bytes\":%lu,\"cases_with_binning\":%lu,\"clamped_requests\":%lu,\"max_shape_requests\":%lu,\"runs\":%lu,"
-           "\"triggers\":%lu,\"trigger_runs\":%lu,\"stops_with_pending_get_frame\":%lu,\"restart_checks\":%lu,\"timebound_checks\":%lu,\"distinct\":%zu}\n",
+           "\"triggers\":%lu,\"trigger_runs\":%lu,\"stops_with_pending_get_frame\":%lu,\"restart_checks\":%lu,\"timebound_checks\":%lu,\"failed_frame_calls\":%lu,\"distinct\":%zu}\n",
            mode, C.cases, g_nviol, C.sets, C.rejected_sets, C.reconfigs, C.starts, C.frames, C.bytes, C.binned_cases, C.clamped, C.maxshape,
-           C.runs, C.triggers, C.trigger_runs, C.pending_at_stop, C.restarts_checked, C.timebound_checked, g_sigs.n);
+           C.runs, C.triggers, C.trigger_runs, C.pending_at_stop, C.restarts_checked, C.timebound_checked, C.failed_frame_calls, g_sigs.n);
     const char* hp = getenv("VERIF_HASH_OUT");
     if (hp) vset_dump(&g_sigs, hp);
     fflush(stdout);
